@@ -23,7 +23,7 @@ def pp_at(mix, mode, Tperm, pperm, y):
 def from_fluxes(rng):
     mix = gen.some_mixture(rng, p_builtin=0.6)
     perv = pv.Pervaporation(membrane=pv.Membrane(name="verif"), mixture=mix)
-    T = rng.uniform(273.0, 400.0)
+    T = gen.edge_temperature(rng)
     mode = rng.choice(["vac", "temp", "press"])
     Tperm = rng.uniform(200.0, T - 20.0) if mode == "temp" else None
     pperm = rng.uniform(0.05, 8.0) if mode == "press" else None
@@ -86,7 +86,7 @@ def to_si_factor(units, comp):
 
 def from_permeances(rng):
     mix = gen.some_mixture(rng, p_builtin=0.6)
-    T = rng.uniform(273.0, 400.0)
+    T = gen.edge_temperature(rng)
     units = gen.tstr(rng, rng.choice([KG, "SI", "GPU"]))
     basis = gen.tstr(rng, rng.choice(["weight", "molar"]))
     comps, perms, pkg, supplied = [], [], [], []
